@@ -152,7 +152,7 @@ fn replay(ctx: &Ctx, file: &str) -> i32 {
         "C05" => c05::replay_body(&body),
         "C10" => c10::replay_body(&body),
         "C16" => c16::replay_body(&body),
-        "C01" | "C06" | "C09" | "C11" | "C13" => world::replay_body(&body),
+        "C01" | "C06" | "C07" | "C09" | "C11" | "C13" => world::replay_body(&body),
         "C08" => c08::replay_body(&body),
         _ => harness_error("replay: unknown property in file"),
     };
